@@ -1,23 +1,31 @@
 #!/venv/bin/python
-"""Apply a named single-site mutant to /repo, run a check, revert.  Mutants: tools/mutants.json
-usage: tools/mutate.py <mutant-name> <ID> [check args...]"""
-import json, subprocess, sys, os
+"""Apply a named single-site mutant (tools/mutants.json) or a patch file to a scratch worktree
+of /repo, run a check against that worktree (VERIF_REPO), remove the worktree.
+usage: tools/mutate.py <mutant-name|path/to/patch.diff> <ID> [check args...]"""
+import json, os, subprocess, sys, tempfile, shutil
+
 M = json.load(open(os.path.join(os.path.dirname(__file__), "mutants.json")))
 name, pid, *rest = sys.argv[1:]
-m = M[name]
-path = os.path.join("/repo", m["file"])
-if subprocess.run(["git", "-C", "/repo", "diff", "--quiet"]).returncode != 0:
-    sys.exit("repo dirty")
-src = open(path).read()
-assert src.count(m["old"]) == 1, f"{name}: pattern occurs {src.count(m['old'])}x"
-open(path, "w").write(src.replace(m["old"], m["new"]))
+wt = tempfile.mkdtemp(prefix="mut_wt_", dir="/tmp")
+os.rmdir(wt)
+subprocess.run(["git", "-C", "/repo", "worktree", "add", "-q", "--detach", wt, "HEAD"], check=True)
 try:
-    r = subprocess.run(["./check", pid, "--no-evidence", *rest], cwd="/verif", capture_output=True, text=True)
+    if os.path.exists(name):
+        subprocess.run(["git", "-C", wt, "apply", os.path.abspath(name)], check=True)
+        label = os.path.basename(os.path.dirname(os.path.abspath(name))) or name
+    else:
+        m = M[name]
+        path = os.path.join(wt, m["file"])
+        src = open(path).read()
+        assert src.count(m["old"]) == 1, f"{name}: pattern occurs {src.count(m['old'])}x"
+        open(path, "w").write(src.replace(m["old"], m["new"]))
+        label = name
+    rdir = tempfile.mkdtemp(prefix="mut_replays_", dir="/tmp")
+    env = dict(os.environ, VERIF_REPO=wt, VERIF_REPLAY_DIR=rdir)
+    r = subprocess.run(["./check", pid, "--no-evidence", *rest], cwd="/verif", capture_output=True, text=True, env=env)
     lines = [l for l in r.stdout.splitlines() if any(k in l for k in ("VIOLATION", "bucket=", "HARNESS", "tier="))]
-    print(f"== {name} on {pid}: exit {r.returncode}")
-    print("\n".join(lines[:6]))
+    print(f"== {label} on {pid}: exit {r.returncode}")
+    print("\n".join(lines[:5]))
+    shutil.rmtree(rdir, ignore_errors=True)
 finally:
-    subprocess.run(["git", "-C", "/repo", "checkout", "--", "."])
-    for f in os.listdir("/verif/replays"):
-        if f.startswith(pid + "_"):
-            os.remove(os.path.join("/verif/replays", f))
+    subprocess.run(["git", "-C", "/repo", "worktree", "remove", "--force", wt])
